@@ -94,7 +94,8 @@ class CountingHandler(object):
 
 MEMBERS = [("cache-on/default", True, "default"), ("cache-off/default", False, "default"),
            ("cache-on/passthrough", True, "passthrough"), ("cache-off/passthrough", False, "passthrough"),
-           ("cache-on/lru1", True, "lru1"), ("cache-off/lru1", False, "lru1")]
+           ("cache-on/lru1", True, "lru1"), ("cache-off/lru1", False, "lru1"),
+           ("documented-defaults", True, "all-defaults")]
 
 
 def make_member(case, schema, cache_remote, caches):
@@ -105,7 +106,10 @@ def make_member(case, schema, cache_remote, caches):
     kw = {}
     RefResolver = impl.validators.RefResolver
     root = copy.deepcopy(schema)
-    if caches == "default":
+    if caches == "all-defaults":
+        # no cache argument at all: the documented default is to cache remote documents
+        r = RefResolver("", root, store=store, handlers={"http": h})
+    elif caches == "default":
         r = RefResolver("", root, store=store, cache_remote=cache_remote, handlers={"http": h})
     else:
         from urllib.parse import urljoin
@@ -131,8 +135,8 @@ class C15(Prop):
             "optional store document, 1-3 schemas referring to them through several spellings (no fragment, '#', "
             "pointer fragments, percent-encoded, unresolvable pointer) and to the bundled metaschemas, and a history "
             "of 2-12 steps (validate instance i with schema j | resolver.resolve(url)).  Every step is applied in "
-            "lock-step to 6 resolvers per schema: cache_remote on/off x {default lru caches, pass-through caches, "
-            "lru_cache(1) caches}.  Oracle: with a scripted failure model, results are identical across members "
+            "lock-step to 7 resolvers per schema: cache_remote on/off x {default lru caches, pass-through caches, "
+            "lru_cache(1) caches} and one built with no cache arguments at all (documented default: caching on).  Oracle: with a scripted failure model, results are identical across members "
             "sharing the same failure history; cache_remote=True: at most one successful fetch per document per "
             "resolver; cache_remote=False: store keys unchanged; every handler failure surfaces as "
             "RefResolutionError; metaschema and store references cause zero handler / urlopen / requests calls.  "
